@@ -27,10 +27,16 @@ pub fn run(prop: &str, tier: &str) -> i32 {
             run.rule = E1_RULE.to_string();
             run.bounds.push("E1 families (see families)".to_string());
             run_e1_perm(&mut run, &[1, 2, 3], &[false, true], 999, true, c01_04::eval_c01);
+            let large = large_states(run.thorough());
+            run.family("large states (2000 uniform generators; dense cluster of 1200+ with six isolated generators; reflective and periodic): all cells built, tiling, a committed subset of cells against the oracle".to_string(), large.len() as u64);
+            run.explore(&large, c01_04::eval_c01_large, |s| J::s(s.id.clone()));
         }
         "C02" => {
             run.rule = E1_RULE.to_string();
             run_e1_perm(&mut run, &[1, 2, 3], &[false, true], 999, true, c01_04::eval_c02);
+            let large = large_states(run.thorough());
+            run.family("large states (2000 uniform generators; dense cluster of 1200+ with six isolated generators; reflective and periodic)".to_string(), large.len() as u64);
+            run.explore(&large, c01_04::eval_c02_large, |s| J::s(s.id.clone()));
         }
         "C03" => {
             run.rule = format!("{}; x all 2^n masks (n <= 4) + mask-flip edges", E1_RULE);
@@ -77,6 +83,22 @@ pub fn run(prop: &str, tier: &str) -> i32 {
                     })
                     .collect();
                 run.family(format!("{} (nodes |S| <= {})", fam.describe(), k), items.len() as u64);
+                run.explore(&items, c06_08_16::eval_c16, |s| s.0.to_json());
+            }
+            // medium / large and big-cell states as nodes (cells with more than 64 vertices, many neighbours at nearly the
+            // same distance); edges: ring points around the first two cells
+            let mut med = medium_families(run.thorough(), &[1, 2, 3], &[false, true]);
+            med.push(("3R big cells (axis pair + ring, prism + neighbour above, jittered shells)".to_string(), bigcell_family(run.thorough())));
+            for (desc, states) in med {
+                let mut items: Vec<(State, Vec<glam::DVec3>)> = states.into_iter().filter(|s| s.n() > 8 && (run.thorough() || s.n() <= 80)).map(|s| (s, vec![])).collect();
+                if !run.thorough() {
+                    // quick: the complete pool and the first removals of each family
+                    items.truncate(12);
+                }
+                if items.is_empty() {
+                    continue;
+                }
+                run.family(format!("{} (nodes; ring edges around cells 0 and 1)", desc), items.len() as u64);
                 run.explore(&items, c06_08_16::eval_c16, |s| s.0.to_json());
             }
         }
